@@ -33,17 +33,6 @@ CONSTANTS Thetas, Kappas, Sig2s, V0s, Es,    \* parameter lattices (rationals <<
 VARIABLES th, ka, sg2, e, v0, n, mean, var
 vars == <<th, ka, sg2, e, v0, n, mean, var>>
 
-\* rational arithmetic that cancels common factors BEFORE multiplying (TLC integers are 32 bit)
-LAdd(p, q) == LET g == Gcd(p[2], q[2]) IN Norm(<<p[1] * (q[2] \div g) + q[1] * (p[2] \div g), (p[2] \div g) * q[2]>>)
-LSub(p, q) == LAdd(p, RNeg(q))
-LMul(p, q) == LET g1 == IF p[1] = 0 THEN 1 ELSE Gcd(IAbs(p[1]), q[2])
-                  g2 == IF q[1] = 0 THEN 1 ELSE Gcd(IAbs(q[1]), p[2])
-              IN  Norm(<<(p[1] \div g1) * (q[1] \div g2), (p[2] \div g2) * (q[2] \div g1)>>)
-LDiv(p, q) == LMul(p, RInv(q))
-LSq(p)     == LMul(p, p)
-RECURSIVE LPow(_, _)
-LPow(q, k) == IF k = 0 THEN ROne ELSE LMul(q, LPow(q, k - 1))
-
 Switch == Q(3, 2)                              \* PSI_CRIT of the code; any value in [1, 2] is admissible
 
 \* ---------------------------------------------------------------- conditional moments of one step from v
